@@ -531,8 +531,6 @@ def _law_stream(ctx):
         g = DGen(rng, VARS[:2], DENSE_ON if mon == "onc" else DENSE_OFF, max_bound=rng.choice([2, 4]))
         laws = [l for l in c18.laws(rng, g, mon == "onc") if "expansion" not in l[0]]
         for name, lhs, rhs in laws:
-            if mon == "onc" and any(x[0] in ("t2", "tb2") for x in F.subformulas(lhs)):
-                continue          # dense online since: known finding F32 (C05)
             vs = sorted(set(F.variables(lhs)) | set(F.variables(rhs))) or ["x"]
             sig = window_signals(rng, vs) if rng.random() < 0.4 else gen_signals(rng, vs)
             ctx.evaluations += 1
@@ -625,7 +623,7 @@ def sign_stream(ctx):
     cases = []
     for k in range(ctx.budget(400, 4000)):
         mon = rng.choice(["offc", "offc", "onc"])
-        allow = (DENSE_ON if mon == "onc" else DENSE_OFF) - {"iffxor"} - ({"since", "bsince"} if mon == "onc" else set())
+        allow = (DENSE_ON if mon == "onc" else DENSE_OFF) - {"iffxor"}
         g = DGen(rng, VARS[:2], allow, max_bound=rng.choice([2, 4, 6]))
         if k % 3 == 0 and mon == "offc":
             # one bounded binary temporal operator with a positive lower bound over predicates (the decomposition of
@@ -927,7 +925,7 @@ def ia_stream(ctx):
     cases = []
     for k in range(ctx.budget(1500, 9000)):
         mon = rng.choice(["offc", "onc"])
-        allow = (DENSE_ON - {"since", "bsince"}) if mon == "onc" else DENSE_OFF
+        allow = DENSE_ON if mon == "onc" else DENSE_OFF
         g = DGen(rng, VARS, allow, max_bound=rng.choice([2, 4]))
         sem = rng.choice(list(c06.SEMS))
         if k % 3 == 0:
@@ -1195,7 +1193,7 @@ def check_modular(ctx, case):
 
 def modular_stream(ctx):
     rng = ctx.subrng("mod-c")
-    for c in modular_cases(ctx, rng, ctx.budget(60, 1000), DENSE_ON - {"since", "bsince"}):
+    for c in modular_cases(ctx, rng, ctx.budget(60, 1000), DENSE_ON):
         ctx.evaluations += 1
         ctx.count("monitor:" + c["monitor"])
         v = check_modular(ctx, c)
@@ -1236,7 +1234,7 @@ def check_getvalue(ctx, case):
 
 def getvalue_stream(ctx):
     rng = ctx.subrng("getv-c")
-    for c in modular_cases(ctx, rng, ctx.budget(50, 800), DENSE_ON - {"since", "bsince"}):
+    for c in modular_cases(ctx, rng, ctx.budget(50, 800), DENSE_ON):
         ctx.evaluations += 1
         ctx.count("monitor:" + c["monitor"])
         v = check_getvalue(ctx, c)
